@@ -63,7 +63,7 @@ SWAPS = [
     (r"get_rook_moves", "get_bishop_moves"), (r"get_bishop_moves", "get_rook_moves"), (r"get_rook_rays", "get_bishop_rays"), (r"get_bishop_rays", "get_rook_rays"),
     (r"get_knight_moves", "get_king_moves"), (r"get_king_moves", "get_knight_moves"),
     (r"\bpinned\b", "checkers"), (r"popcnt\(\) == 1", "popcnt() <= 1"), (r"popcnt\(\) == 1", "popcnt() >= 1"),
-    (r"\b100\b", "101"), (r"\b100\b", "99"), (r"\b16\b", "15"), (r"\b18\b", "17"), (r"\b63\b", "31"), (r"\b7\b", "6"), (r"\b8\b", "7"), (r"\b3\b", "2"), (r"\b2\b", "3"), (r"\b1\b", "0"), (r"\b0\b", "1"), (r"\b5\b", "4"), (r"\b4\b", "5"),
+    (r"(?<![.\w])100\b(?!\.)", "101"), (r"(?<![.\w])100\b(?!\.)", "99"), (r"(?<![.\w])16\b(?!\.)", "15"), (r"(?<![.\w])18\b(?!\.)", "17"), (r"(?<![.\w])63\b(?!\.)", "31"), (r"(?<![.\w])7\b(?!\.)", "6"), (r"(?<![.\w])8\b(?!\.)", "7"), (r"(?<![.\w])3\b(?!\.)", "2"), (r"(?<![.\w])2\b(?!\.)", "3"), (r"(?<![.\w])1\b(?!\.)", "0"), (r"(?<![.\w])0\b(?!\.)", "1"), (r"(?<![.\w])5\b(?!\.)", "4"), (r"(?<![.\w])4\b(?!\.)", "5"),
     (r"\btrue\b", "false"), (r"\bfalse\b", "true"),
     (r"\bbreak;", ""), (r"\bcontinue;", ""), (r"return true;", "return false;"), (r"return false;", "return true;"),
     (r"Some\(false\)", "Some(true)"), (r"\.is_some\(\)", ".is_none()"), (r"\.is_none\(\)", ".is_some()"),
@@ -101,10 +101,18 @@ def enumerate_mutants(rel):
 
 
 def run(cmd, cwd, timeout):
+    """Run a shell command in its own process group; kill the whole group on timeout."""
+    import signal
+    p = subprocess.Popen(cmd, cwd=cwd, shell=True, stdout=subprocess.PIPE, stderr=subprocess.STDOUT, text=True, preexec_fn=os.setsid)
     try:
-        p = subprocess.run(cmd, cwd=cwd, shell=True, capture_output=True, text=True, timeout=timeout)
-        return p.returncode, p.stdout + p.stderr
+        o, _ = p.communicate(timeout=timeout)
+        return p.returncode, o
     except subprocess.TimeoutExpired:
+        try:
+            os.killpg(os.getpgid(p.pid), signal.SIGKILL)
+        except ProcessLookupError:
+            pass
+        p.communicate()
         return 124, "timeout"
 
 
@@ -138,16 +146,19 @@ def main():
             text[i] = new
             open(path, "w").write("\n".join(text))
             t0 = time.time()
-            rc, o = run("cargo test --offline --lib 2>&1 | tail -40", repo, 900)
+            rc, o = run("cargo test --offline --lib 2>&1 | tail -40", repo, 150)
             passed = "36 passed; 0 failed" in o
             if not passed:
-                suite = "killed" if ("test result: FAILED" in o or "panicked" in o) else ("no-compile" if "error" in o else "killed")
+                suite = "killed(hang)" if rc == 124 else "killed" if ("test result: FAILED" in o or "panicked" in o) else ("no-compile" if "error" in o else "killed")
                 det, sig = "-", "-"
             else:
                 suite = "survived"
                 det, sig = "NONE", "-"
                 for cid in CHECKS[rel]:
-                    rc, o = run(f"./check {cid} quick 2>&1 | tail -30", verif, 3000)
+                    rc, o = run(f"VERIF_WATCHDOG_S=600 ./check {cid} quick 2>&1 | tail -30", verif, 900)
+                    if rc == 124 or "watchdog" in o:
+                        det, sig = cid, "hang(inconclusive)"
+                        break
                     if "VIOLATION" in o:
                         det = cid
                         m = re.search(r"signature=(\S+)", o)
